@@ -424,3 +424,7 @@ impl Row {
         }
     }
 }
+
+#[cfg(kani)]
+#[path = "/verif/kani/query/core_types.rs"]
+mod kani_harness;
